@@ -350,6 +350,29 @@ impl Case for C14Case {
             finish(&mut v, &w);
             return v;
         }
+        // the store must be keyed by the new numbers, not only iterate in the right order
+        if !expected.is_empty() {
+            let picks = [0usize, expected.len() / 2, expected.len() - 1];
+            for (k, &i) in picks.iter().enumerate() {
+                let num = q.lines[i].num;
+                let looked = w.tab(num as usize);
+                let listed: Vec<Tok> = if k == 1 {
+                    let o = w.line(&format!("LIST {}", num), &LineIo::budget(500));
+                    tokens(&w.events[o.ev_start..o.ev_end])
+                } else {
+                    vec![Tok::List(expected[i].clone())]
+                };
+                if (looked.as_deref() != Some(expected[i].as_str()) || listed != vec![Tok::List(expected[i].clone())]) && w.fatal.is_none() {
+                    v.violation = Some(Violation {
+                        key: "C14:renumbered:lookup-by-number".into(),
+                        detail: format!("{:?}: line {} is listed as {:?} but looking it up by number gives {:?} / LIST {} gives {:?}", text, num, expected[i], looked, num, listed),
+                    });
+                    finish(&mut v, &w);
+                    return v;
+                }
+            }
+            w.stats.bump("c14.lookup_by_new_number");
+        }
         w.stats.bump("c14.success");
         if map.iter().any(|(a, b)| a != b) {
             w.stats.bump("c14.success_with_changed_numbers");
@@ -420,6 +443,20 @@ impl Case for C14Case {
                 });
             } else {
                 w.stats.bump("c14.behaviour_compared");
+                // typing a renumbered line's number replaces that line, it does not add a second one
+                if let Some(mid) = q.lines.get(q.lines.len() / 2) {
+                    w.line(&format!("{} REM EDITED", mid.num), &LineIo::budget(200));
+                    let now: Vec<String> = w.listing_text().lines().map(|s| s.to_string()).collect();
+                    let mut want = expected.clone();
+                    let at = q.lines.len() / 2;
+                    want[at] = format!("{} REM EDITED", mid.num);
+                    if now != want && w.fatal.is_none() {
+                        v.violation = Some(Violation {
+                            key: "C14:renumbered:edit-by-new-number".into(),
+                            detail: format!("after {:?}, typing `{} REM EDITED` gave a listing of {} lines (expected {}): {:?}", text, mid.num, now.len(), want.len(), now),
+                        });
+                    }
+                }
             }
         }
         finish(&mut v, &w);
@@ -503,6 +540,20 @@ fn decorate(rng: &mut Rng, p: &mut Program) -> (bool, bool) {
                 },
             );
             nonascii = true;
+        }
+    }
+    // a line at the 1024-character limit whose reference gains digits when renumbered
+    if rng.pct(4) && p.lines.len() >= 2 {
+        let last = p.lines.len() - 1;
+        let t = rng.usize(p.lines.len());
+        let num = p.lines[last].num;
+        if num < 65000 && !matches!(p.lines[last].stmts.last(), Some(Stmt::If { .. }) | Some(Stmt::Rem(..))) {
+            let head = format!("{} {}:GOTO {}:REM ", num + 2, "END", p.lines[t].num);
+            let pad = (1024usize - rng.usize(3)).saturating_sub(head.chars().count());
+            p.lines.push(Line {
+                num: num + 2,
+                stmts: vec![Stmt::End, Stmt::Goto(Target::L(t)), Stmt::Rem("x".repeat(pad), false)],
+            });
         }
     }
     let mut tail = false;
@@ -655,7 +706,7 @@ impl Property for C14 {
         }
     }
     fn rule(&self) -> &'static str {
-        "one evaluation = a generated link-clean program (GOTO, GOSUB, IF..THEN n / ELSE n / IF..GOTO n, ON..GOTO, ON..GOSUB, RESTORE n, and on unreachable lines RUN n, LIST / DELETE in all range forms and bare; decoy numbers in PRINT, DATA, strings and remarks; non-ASCII literals in front of references; line 0; lines up to 65529) typed into the real runtime, optionally a get_listing() snapshot held, then RENUM in one of its eight argument forms with valid, overflowing, reordering, step-0 and out-of-range operands (5%: as the first program line + RUN; 5%: on a program with a dangling reference); verdict = (error reported AND listing unchanged) OR (no error AND listing equals the model renumbering of the AST), then RUN of original (fresh twin) and renumbered program with transcripts and final variables equal modulo the line map; distinct = distinct API/event log fingerprint; non-trivial = RENUM reached its verdict"
+        "one evaluation = a generated link-clean program (GOTO, GOSUB, IF..THEN n / ELSE n / IF..GOTO n, ON..GOTO, ON..GOSUB, RESTORE n, and on unreachable lines RUN n, LIST / DELETE in all range forms and bare; decoy numbers in PRINT, DATA, strings and remarks; non-ASCII literals in front of references; line 0; lines up to 65529) typed into the real runtime, optionally a get_listing() snapshot held, then RENUM in one of its eight argument forms with valid, overflowing, reordering, step-0 and out-of-range operands (5%: as the first program line + RUN; 5%: on a program with a dangling reference); verdict = (error reported AND listing unchanged) OR (no error AND listing equals the model renumbering of the AST, lines are found under their new numbers by LIST n and by the completion lookup, and typing a new number replaces that line), then RUN of original (fresh twin) and renumbered program with transcripts and final variables equal modulo the line map; distinct = distinct API/event log fingerprint; non-trivial = RENUM reached its verdict"
     }
     fn assumptions(&self) -> Vec<&'static str> {
         vec![
@@ -670,6 +721,7 @@ impl Property for C14 {
             "c14.failed_unchanged",
             "c14.behaviour_compared",
             "c14.snapshot_held",
+            "c14.lookup_by_new_number",
             "c14.mode.in_program",
             "c14.mode.compile_error",
             "c14.ref.goto",
